@@ -11,25 +11,39 @@
    the source text is quoted above each.  `new unsigned char[n]` yields [n]
    cells holding [UNINIT] (= 256, not a byte).
 
-   The two places where the pinned code departs from std::vector are kept
+   The places where the pinned code departs from std::vector are kept
    under a configuration record: [c_fix_cmp], [c_fix_resize] select the code
    after fixes/C20-bytearray-cmp-sign.patch and
-   fixes/C20-bytearray-resize-detach.patch.  [cfg_selected] (from
-   Model/C20Config.v) is the code /repo currently has. *)
+   fixes/C20-bytearray-resize-detach.patch; [c_fix_index] the code after
+   fixes/C20-subscript-detach.patch (operator[] and pop_back detach only a
+   shared block instead of always); [c_fix_leak] the code after
+   fixes/C20-bytearray-unshare-leaked.patch (a block into which a pointer or
+   reference has been handed out is marked and never shared afterwards).
+   [cfg_selected] (from Model/C20Config.v) is the code /repo currently has.
+
+   Element references and data() pointers that are HELD across other
+   operations on the same object are modelled from "held references" on
+   (end of the member functions): a reference is (block, offset); using one
+   whose block has been deleted is the result [RUAF] (use after free), which
+   no std::vector operation has. *)
 From AsconV Require Export Bits.Bytes Spec.Hex Model.Hexm Model.C20Config.
 From Coq Require Import ZArith.
 Local Open Scope nat_scope.
 
-Record cfg := mkcfg { c_fix_cmp : bool; c_fix_resize : bool; c_fix_hex : bool }.
-Definition cfg_asis : cfg := mkcfg false false false.
-Definition cfg_fixed : cfg := mkcfg true true true.
-Definition cfg_selected : cfg := mkcfg fix_ba_cmp fix_ba_resize fix_hex_helper.
+Record cfg := mkcfg { c_fix_cmp : bool; c_fix_resize : bool; c_fix_hex : bool; c_fix_index : bool; c_fix_leak : bool }.
+Definition cfg_asis : cfg := mkcfg false false false false false.
+Definition cfg_fixed : cfg := mkcfg true true true true true.
+Definition cfg_selected : cfg := mkcfg fix_ba_cmp fix_ba_resize fix_hex_helper fix_ba_index fix_ba_leak.
+(* the code after every patch but fixes/C20-bytearray-unshare-leaked.patch *)
+Definition cfg_fixed_index : cfg := mkcfg true true true true false.
 
-(* struct byte_array_private { size_t ref; size_t size; size_t capacity; unsigned char *data; } *)
-Record block := mkblock { b_ref : nat; b_size : nat; b_cap : nat; b_data : list N }.
-Definition set_ref (b : block) (r : nat) := mkblock r (b_size b) (b_cap b) (b_data b).
-Definition set_size (b : block) (s : nat) := mkblock (b_ref b) s (b_cap b) (b_data b).
-Definition set_data (b : block) (d : list N) := mkblock (b_ref b) (b_size b) (b_cap b) d.
+(* struct byte_array_private { size_t ref; size_t size; size_t capacity; unsigned char *data; }
+   after fixes/C20-bytearray-unshare-leaked.patch also  bool leaked;  (always false before the patch) *)
+Record block := mkblock { b_ref : nat; b_size : nat; b_cap : nat; b_data : list N; b_leak : bool }.
+Definition set_ref (b : block) (r : nat) := mkblock r (b_size b) (b_cap b) (b_data b) (b_leak b).
+Definition set_size (b : block) (s : nat) := mkblock (b_ref b) s (b_cap b) (b_data b) (b_leak b).
+Definition set_data (b : block) (d : list N) := mkblock (b_ref b) (b_size b) (b_cap b) d (b_leak b).
+Definition set_leak (b : block) (l : bool) := mkblock (b_ref b) (b_size b) (b_cap b) (b_data b) l.
 
 Definition heap := list (option block).
 Definition hget (h : heap) (i : nat) : option block := nth i h None.
@@ -42,9 +56,9 @@ Record state := mkstate { heap_of : heap; vars_of : list slot }.
 (* #define CAPACITY(x) (((x) + 15U) & ~((size_t)15U)) *)
 Definition CAPACITY (x : nat) : nat := ((x + 15) / 16) * 16.
 
-(* byte_array_private(size_t reserve) : ref(1), size(0), capacity(reserve), data(new unsigned char [reserve]) *)
+(* byte_array_private(size_t reserve) : ref(1), size(0), capacity(reserve), [leaked(false),] data(new unsigned char [reserve]) *)
 Definition new_private (h : heap) (reserve : nat) : heap * nat :=
-  (h ++ [Some (mkblock 1 0 reserve (repeat UNINIT reserve))], length h).
+  (h ++ [Some (mkblock 1 0 reserve (repeat UNINIT reserve) false)], length h).
 
 (* if (p && (--(p->ref)) == 0) delete p;      (destructor, clear, operator=, detach) *)
 Definition unref (h : heap) (p : option nat) : heap :=
@@ -67,38 +81,11 @@ Definition m_ctor_size (h : heap) (size : nat) (value : N) : heap * option nat :
   | Some b => (hset h1 np (Some (set_data (set_size b size) (set_at (b_data b) 0 (repeat value size)))), Some np)
   end.
 
-(* byte_array(const byte_array &other) : p(other.p) { if (p) ++(p->ref); } *)
-Definition m_ctor_copy (h : heap) (other : option nat) : heap * option nat :=
-  match other with
-  | None => (h, None)
-  | Some i => match hget h i with
-              | None => (h, other)
-              | Some b => (hset h i (Some (set_ref b (b_ref b + 1))), other)
-              end
-  end.
-
 (* ~byte_array() { if (p && (--(p->ref)) == 0) delete p; } *)
 Definition m_dtor (h : heap) (p : option nat) : heap := unref h p.
 
 Definition opt_eqb (p q : option nat) : bool :=
   match p, q with None, None => true | Some i, Some j => i =? j | _, _ => false end.
-
-(* byte_array &operator=(const byte_array &other)
-   { if (p != other.p) { if (other.p) ++(other.p->ref);
-                         if (p && (--(p->ref)) == 0) delete p;
-                         p = other.p; }
-     return *this; } *)
-Definition m_assign (h : heap) (p other : option nat) : heap * option nat :=
-  if opt_eqb p other then (h, p)
-  else
-    let h1 := match other with
-              | None => h
-              | Some i => match hget h i with
-                          | None => h
-                          | Some b => hset h i (Some (set_ref b (b_ref b + 1)))
-                          end
-              end in
-    (unref h1 p, other).
 
 (* void byte_array::detach(size_t capacity) const
    { if (p && p->size > capacity) capacity = p->size;
@@ -121,6 +108,43 @@ Definition detach (h : heap) (p : option nat) (capacity : nat) : heap * option n
             end in
   (unref h2 p, Some np).
 
+(* p && p->leaked *)
+Definition leaked (h : heap) (p : option nat) : bool :=
+  match p with Some i => match hget h i with Some b => b_leak b | None => false end | None => false end.
+
+(* byte_array(const byte_array &other) : p(other.p) { if (p) ++(p->ref); }
+   after fixes/C20-bytearray-unshare-leaked.patch:  { if (p) { ++(p->ref); if (p->leaked) detach(); } } *)
+Definition share_copy (h : heap) (other : option nat) : heap * option nat :=
+  match other with
+  | None => (h, None)
+  | Some i => match hget h i with
+              | None => (h, other)
+              | Some b => (hset h i (Some (set_ref b (b_ref b + 1))), other)
+              end
+  end.
+Definition m_ctor_copy (c : cfg) (h : heap) (other : option nat) : heap * option nat :=
+  let '(h1, p1) := share_copy h other in
+  if c_fix_leak c && leaked h1 p1 then detach h1 p1 0 else (h1, p1).
+
+(* byte_array &operator=(const byte_array &other)
+   { if (p != other.p) { if (other.p) ++(other.p->ref);
+                         if (p && (--(p->ref)) == 0) delete p;
+                         p = other.p;
+                         [after fixes/C20-bytearray-unshare-leaked.patch:  if (p && p->leaked) detach();] }
+     return *this; } *)
+Definition m_assign (c : cfg) (h : heap) (p other : option nat) : heap * option nat :=
+  if opt_eqb p other then (h, p)
+  else
+    let h1 := match other with
+              | None => h
+              | Some i => match hget h i with
+                          | None => h
+                          | Some b => hset h i (Some (set_ref b (b_ref b + 1)))
+                          end
+              end in
+    let h2 := unref h1 p in
+    if c_fix_leak c && leaked h2 other then detach h2 other 0 else (h2, other).
+
 (* p->data[pos] after a member function left p non-null *)
 Definition data_at (h : heap) (p : option nat) (pos : nat) : N :=
   match p with
@@ -135,15 +159,36 @@ Definition on_block (h : heap) (p : option nat) (f : block -> block) : heap :=
   | None => h
   end.
 
-(* unsigned char &operator[](size_t pos) { detach(); return p->data[pos]; }       used as  v[pos] = value *)
-Definition m_index_set (h : heap) (p : option nat) (pos : nat) (value : N) : heap * option nat :=
-  let '(h1, p1) := detach h p 0 in
+(* the statements of operator[] before `return p->data[pos];`, both overloads:
+     detach();
+   after fixes/C20-subscript-detach.patch:
+     if (!p || p->ref > 1) detach();                                       *)
+Definition acc_index (c : cfg) (h : heap) (p : option nat) : heap * option nat :=
+  if c_fix_index c then
+    match p with
+    | None => detach h p 0
+    | Some i => match hget h i with
+                | Some b => if 1 <? b_ref b then detach h p 0 else (h, p)
+                | None => (h, p)
+                end
+    end
+  else detach h p 0.
+(* after fixes/C20-bytearray-unshare-leaked.patch every function that returns a pointer or a
+   reference into p->data first executes  p->leaked = true; *)
+Definition markf (c : cfg) (b : block) : block := if c_fix_leak c then set_leak b true else b.
+Definition mark (c : cfg) (h : heap) (p : option nat) : heap := on_block h p (markf c).
+(* operator[] up to the point where the reference &p->data[pos] is returned *)
+Definition m_index_ref (c : cfg) (h : heap) (p : option nat) : heap * option nat :=
+  let '(h1, p1) := acc_index c h p in (mark c h1 p1, p1).
+
+(* unsigned char &operator[](size_t pos)          used as  v[pos] = value *)
+Definition m_index_set (c : cfg) (h : heap) (p : option nat) (pos : nat) (value : N) : heap * option nat :=
+  let '(h1, p1) := m_index_ref c h p in
   (on_block h1 p1 (fun b => set_data b (upd (b_data b) pos value)), p1).
 
-(* unsigned char &operator[](size_t pos)             { detach(); return p->data[pos]; }   read
-   const unsigned char &operator[](size_t pos) const { detach(); return p->data[pos]; }        *)
-Definition m_index_get (h : heap) (p : option nat) (pos : nat) : heap * option nat * N :=
-  let '(h1, p1) := detach h p 0 in (h1, p1, data_at h1 p1 pos).
+(* unsigned char &operator[](size_t pos)  /  const unsigned char &operator[](size_t pos) const      read at once *)
+Definition m_index_get (c : cfg) (h : heap) (p : option nat) (pos : nat) : heap * option nat * N :=
+  let '(h1, p1) := m_index_ref c h p in (h1, p1, data_at h1 p1 pos).
 
 (* size_t size() const { return p ? p->size : 0; } *)
 Definition m_size (h : heap) (p : option nat) : nat :=
@@ -155,16 +200,21 @@ Definition m_capacity (h : heap) (p : option nat) : nat :=
 Definition m_empty (h : heap) (p : option nat) : bool :=
   match p with Some i => match hget h i with Some b => b_size b =? 0 | None => true end | None => true end.
 
-(* unsigned char *data() { if (p) { if (p->ref > 1) detach(); return p->data; } else { return 0; } }
+(* unsigned char *data() { if (p) { if (p->ref > 1) detach(); [p->leaked = true;] return p->data; } else { return 0; } }
    iterator begin() { return data(); }   iterator end() { return data() + size(); } *)
-Definition m_data (h : heap) (p : option nat) : heap * option nat :=
+Definition m_data (c : cfg) (h : heap) (p : option nat) : heap * option nat :=
   match p with
   | Some i => match hget h i with
-              | Some b => if 1 <? b_ref b then detach h p 0 else (h, p)
+              | Some b => let '(h1, p1) := if 1 <? b_ref b then detach h p 0 else (h, p) in (mark c h1 p1, p1)
               | None => (h, p)
               end
   | None => (h, p)
   end.
+(* const unsigned char *data() const { return p ? p->data : 0; }
+   after fixes/C20-bytearray-unshare-leaked.patch the same body as the non-const data()
+   (p is mutable): a const pointer, too, must keep showing this array and no other *)
+Definition m_data_c (c : cfg) (h : heap) (p : option nat) : heap * option nat :=
+  if c_fix_leak c then m_data c h p else (h, p).
 
 (* the bytes [data(), data() + size()) *)
 Definition contents (h : heap) (p : option nat) : list N :=
@@ -222,12 +272,13 @@ Definition m_push_back (h : heap) (p : option nat) (value : N) : heap * option n
     end in
   (on_block h1 p1 (fun b => set_size (set_data b (upd (b_data b) (b_size b) value)) (b_size b + 1)), p1).
 
-(* void byte_array::pop_back() { if (p && p->size > 0) { detach(); --(p->size); } } *)
-Definition m_pop_back (h : heap) (p : option nat) : heap * option nat :=
+(* void byte_array::pop_back() { if (p && p->size > 0) { detach(); --(p->size); } }
+   after fixes/C20-subscript-detach.patch:                    { if (p->ref > 1) detach(); --(p->size); } *)
+Definition m_pop_back (c : cfg) (h : heap) (p : option nat) : heap * option nat :=
   match p with
   | Some i => match hget h i with
               | Some b => if 0 <? b_size b then
-                            let '(h1, p1) := detach h p 0 in
+                            let '(h1, p1) := if c_fix_index c && negb (1 <? b_ref b) then (h, p) else detach h p 0 in
                             (on_block h1 p1 (fun b => set_size b (b_size b - 1)), p1)
                           else (h, p)
               | None => (h, p)
@@ -288,18 +339,77 @@ Definition cmp_result (o : cmpop) (r : Z) : bool :=
      int result = ::ascon_bytes_from_hex(vec.data(), vec.size(), str, len);
      if (result != -1) return vec;  [fixed: { vec.resize(result); return vec; }]
      else return byte_array(); }
-   used as  new byte_array(bytes_from_hex(str, len));  the local `vec` is the returned object or is
-   copied and destroyed, either way one reference remains *)
+   used as  new byte_array(bytes_from_hex(str, len));  `return vec;` copy-constructs the result
+   from the local `vec`, which is then destroyed (no named-return-value elision: the function has
+   two different return expressions).  Before the unshare patch the copy shares the block and one
+   reference remains; after it the block is leaked (vec.data() was called), the copy is a
+   detached one and the original is deleted: exactly detach() *)
 Definition m_from_hex (c : cfg) (h : heap) (str : list N) : heap * option nat :=
   let len := length str in
   let '(h1, p1) := m_ctor_size h (len / 2) 0%N in
-  let '(h2, p2) := m_data h1 p1 in
+  let '(h2, p2) := m_data c h1 p1 in
   let vsize := m_size h2 p2 in
   let '(result, mem) := from_hex (match p2 with Some i => match hget h2 i with Some b => b_data b | None => [] end | None => [] end) vsize str in
   let h3 := on_block h2 p2 (fun b => set_data b mem) in
   if (result =? -1)%Z then (unref h3 p2, None)
-  else if c_fix_hex c then m_resize c h3 p2 (Z.to_nat result)
-  else (h3, p2).
+  else
+    let '(h4, p4) := if c_fix_hex c then m_resize c h3 p2 (Z.to_nat result) else (h3, p2) in
+    if c_fix_leak c && leaked h4 p4 then detach h4 p4 0 else (h4, p4).
+
+(* ---- held references ---------------------------------------------------- *)
+(* A reference `unsigned char &r = v[pos]` or a pointer `v.data() + pos` is the address of a cell
+   of a data array: (block, offset), or nothing for the null pointer data() returns when p == 0.
+   Deleting the block deletes the array (~byte_array_private: delete[] data): the reference dangles. *)
+Definition cref := option (nat * nat).
+Definition mkref (p : option nat) (pos : nat) : cref := match p with Some k => Some (k, pos) | None => None end.
+Definition ref_live (h : heap) (r : cref) : bool :=
+  match r with Some (k, _) => match hget h k with Some _ => true | None => false end | None => false end.
+(* *r  and  *r = x  for a live reference *)
+Definition ref_rd (h : heap) (r : cref) : N := match r with Some (k, o) => data_at h (Some k) o | None => UNINIT end.
+Definition ref_wr (h : heap) (r : cref) (x : N) : heap :=
+  match r with Some (k, o) => on_block h (Some k) (fun b => set_data b (upd (b_data b) o x)) | None => h end.
+
+Inductive result := RUnit | RBool (b : bool) | RNat (n : nat) | RByte (x : N) | RBytes (l : list N) | RAny | RPre
+                  | RUAF.   (* a dangling reference was about to be used (the use itself is not performed) *)
+
+(* unsigned char &r = v[i]; unsigned char &s = v[j]; r = x; s = y; *)
+Definition m_set2 (c : cfg) (h : heap) (p : option nat) (i : nat) (x : N) (j : nat) (y : N) : heap * option nat * result :=
+  let '(h1, p1) := m_index_ref c h p in
+  let '(h2, p2) := m_index_ref c h1 p1 in
+  let r := mkref p1 i in let s := mkref p2 j in
+  if ref_live h2 r && ref_live h2 s then (ref_wr (ref_wr h2 r x) s y, p2, RUnit) else (h2, p2, RUAF).
+
+(* std::swap(v[i], v[j]):  unsigned char &r = v[i]; unsigned char &s = v[j]; unsigned char t = r; r = s; s = t; *)
+Definition m_swap (c : cfg) (h : heap) (p : option nat) (i j : nat) : heap * option nat * result :=
+  let '(h1, p1) := m_index_ref c h p in
+  let '(h2, p2) := m_index_ref c h1 p1 in
+  let r := mkref p1 i in let s := mkref p2 j in
+  if ref_live h2 r && ref_live h2 s then
+    let t := ref_rd h2 r in
+    let h3 := ref_wr h2 r (ref_rd h2 s) in
+    (ref_wr h3 s t, p2, RUnit)
+  else (h2, p2, RUAF).
+
+(* [const] unsigned char &r = v[i]; (void) v[j]; return r;     both overloads have the same body *)
+Definition m_get_held (c : cfg) (h : heap) (p : option nat) (i j : nat) : heap * option nat * result :=
+  let '(h1, p1) := m_index_ref c h p in
+  let '(h2, p2) := m_index_ref c h1 p1 in
+  let r := mkref p1 i in
+  if ref_live h2 r then (h2, p2, RByte (ref_rd h2 r)) else (h2, p2, RUAF).
+
+(* unsigned char &r = v[i]; v.pop_back(); return r;      (i is not the last element) *)
+Definition m_held_pop (c : cfg) (h : heap) (p : option nat) (i : nat) : heap * option nat * result :=
+  let '(h1, p1) := m_index_ref c h p in
+  let '(h2, p2) := m_pop_back c h1 p1 in
+  let r := mkref p1 i in
+  if ref_live h2 r then (h2, p2, RByte (ref_rd h2 r)) else (h2, p2, RUAF).
+
+(* const unsigned char *q = cv.data(); v[j] = value; return q[i];       (cv: the same object, const) *)
+Definition m_cdata_held (c : cfg) (h : heap) (p : option nat) (i j : nat) (value : N) : heap * option nat * result :=
+  let '(h1, p1) := m_data_c c h p in
+  let '(h2, p2) := m_index_set c h1 p1 j value in
+  let r := mkref p1 i in
+  if ref_live h2 r then (h2, p2, RByte (ref_rd h2 r)) else (h2, p2, RUAF).
 
 (* ---- operations on variables ------------------------------------------ *)
 Inductive op :=
@@ -318,9 +428,16 @@ Inductive op :=
 | ODataC (v : nat)                         (* read through const data() / cbegin() / cend() *)
 | OReserve (v n : nat) | OResize (v n : nat) | OClear (v : nat)
 | OPush (v : nat) (value : N) | OPop (v : nat)
-| OCmp (o : cmpop) (v w : nat).            (* v == w, v != w, v < w, v <= w, v > w, v >= w *)
-
-Inductive result := RUnit | RBool (b : bool) | RNat (n : nat) | RByte (x : N) | RBytes (l : list N) | RAny | RPre.
+| OCmp (o : cmpop) (v w : nat)             (* v == w, v != w, v < w, v <= w, v > w, v >= w *)
+(* references and pointers held across other operations on the same object *)
+| OSet2 (v i : nat) (x : N) (j : nat) (y : N)   (* unsigned char &r = v[i]; unsigned char &s = v[j]; r = x; s = y; *)
+| OSwap (v i j : nat)                      (* std::swap(v[i], v[j]) *)
+| OGetHeld (v i j : nat)                   (* unsigned char &r = v[i]; (void) v[j]; return r;         non-const *)
+| OGetHeldC (v i j : nat)                  (* const unsigned char &r = cv[i]; (void) cv[j]; return r;  const *)
+| OHeldPop (v i : nat)                     (* unsigned char &r = v[i]; v.pop_back(); return r;   i + 1 < v.size() *)
+| ODataHeldCopy (v w pos : nat) (value : N)   (* unsigned char *q = v.data(); new (&w) byte_array(v); q[pos] = value; *)
+| ODataHeldAssign (v w pos : nat) (value : N) (* unsigned char *q = v.data(); w = v; q[pos] = value; *)
+| OCDataHeld (v i j : nat) (value : N).    (* const unsigned char *q = cv.data(); v[j] = value; return q[i]; *)
 
 Definition var (st : state) (v : nat) : slot := nth v (vars_of st) Dead.
 Definition ptr_of (s : slot) : option nat := match s with Ptr i => Some i | _ => None end.
@@ -341,28 +458,50 @@ Definition step (c : cfg) (st : state) (o : op) : state * result :=
   match o with
   | OCtor v => if alive (var st v) then (st, RPre) else construct st v (h, None)
   | OCtorCopy v w => if alive (var st v) || negb (alive (var st w)) then (st, RPre)
-                     else construct st v (m_ctor_copy h (ptr_of (var st w)))
+                     else construct st v (m_ctor_copy c h (ptr_of (var st w)))
   | OCtorSize v n value => if alive (var st v) then (st, RPre) else construct st v (m_ctor_size h n value)
   | OFromHex v str => if alive (var st v) then (st, RPre) else construct st v (m_from_hex c h str)
   | ODtor v => if alive (var st v) then (mkstate (m_dtor h (ptr_of (var st v))) (upd (vars_of st) v Dead), RUnit) else (st, RPre)
-  | OAssign v w => if alive (var st w) then member st v (fun h p => (m_assign h p (ptr_of (var st w)), RUnit)) else (st, RPre)
-  | OSet v pos value => member st v (fun h p => (m_index_set h p pos value, RUnit))
-  | OGet v pos | OGetC v pos => member st v (fun h p => let '(h', p', x) := m_index_get h p pos in (h', p', RByte x))
+  | OAssign v w => if alive (var st w) then member st v (fun h p => (m_assign c h p (ptr_of (var st w)), RUnit)) else (st, RPre)
+  | OSet v pos value => member st v (fun h p => (m_index_set c h p pos value, RUnit))
+  | OGet v pos | OGetC v pos => member st v (fun h p => let '(h', p', x) := m_index_get c h p pos in (h', p', RByte x))
   | OSize v => member st v (fun h p => (h, p, RNat (m_size h p)))
   | OCapacity v => member st v (fun h p => (h, p, RNat (m_capacity h p)))
   | OEmpty v => member st v (fun h p => (h, p, RBool (m_empty h p)))
-  | OData v => member st v (fun h p => let '(h', p') := m_data h p in (h', p', RBytes (contents h' p')))
-  | ODataSet v pos value => member st v (fun h p => let '(h', p') := m_data h p in
+  | OData v => member st v (fun h p => let '(h', p') := m_data c h p in (h', p', RBytes (contents h' p')))
+  | ODataSet v pos value => member st v (fun h p => let '(h', p') := m_data c h p in
                                (on_block h' p' (fun b => set_data b (upd (b_data b) pos value)), p', RUnit))
-  | ODataC v => member st v (fun h p => (h, p, RBytes (contents h p)))
+  | ODataC v => member st v (fun h p => let '(h', p') := m_data_c c h p in (h', p', RBytes (contents h' p')))
   | OReserve v n => member st v (fun h p => (m_reserve h p n, RUnit))
   | OResize v n => member st v (fun h p => (m_resize c h p n, RUnit))
   | OClear v => member st v (fun h p => (m_clear h p, RUnit))
   | OPush v value => member st v (fun h p => (m_push_back h p value, RUnit))
-  | OPop v => member st v (fun h p => (m_pop_back h p, RUnit))
+  | OPop v => member st v (fun h p => (m_pop_back c h p, RUnit))
   | OCmp o v w => if alive (var st w) then
                     member st v (fun h p => (h, p, RBool (cmp_result o (m_cmp c h p (ptr_of (var st w))))))
                   else (st, RPre)
+  | OSet2 v i x j y => member st v (fun h p => m_set2 c h p i x j y)
+  | OSwap v i j => member st v (fun h p => m_swap c h p i j)
+  | OGetHeld v i j | OGetHeldC v i j => member st v (fun h p => m_get_held c h p i j)
+  | OHeldPop v i => member st v (fun h p => m_held_pop c h p i)
+  | OCDataHeld v i j value => member st v (fun h p => m_cdata_held c h p i j value)
+  | ODataHeldCopy v w pos value =>
+    if alive (var st v) && negb (alive (var st w)) then
+      let '(h1, p1) := m_data c h (ptr_of (var st v)) in
+      let '(h2, q) := m_ctor_copy c h1 p1 in
+      let vs2 := upd (upd (vars_of st) v (slot_of p1)) w (slot_of q) in
+      let r := mkref p1 pos in
+      if ref_live h2 r then (mkstate (ref_wr h2 r value) vs2, RUnit) else (mkstate h2 vs2, RUAF)
+    else (st, RPre)
+  | ODataHeldAssign v w pos value =>
+    if alive (var st v) && alive (var st w) then
+      let '(h1, p1) := m_data c h (ptr_of (var st v)) in
+      let vs1 := upd (vars_of st) v (slot_of p1) in
+      let '(h2, q) := m_assign c h1 (ptr_of (nth w vs1 Dead)) p1 in
+      let vs2 := upd vs1 w (slot_of q) in
+      let r := mkref p1 pos in
+      if ref_live h2 r then (mkstate (ref_wr h2 r value) vs2, RUnit) else (mkstate h2 vs2, RUAF)
+    else (st, RPre)
   end.
 
 Fixpoint run (c : cfg) (st : state) (ops : list op) : state * list result :=
@@ -425,6 +564,23 @@ Definition vec_step (a : vstate) (o : op) : vstate * result :=
   | OPush v value => vmember a v (fun l => (l ++ [value], RUnit))
   | OPop v => vmember a v (fun l => (removelast l, RUnit))       (* on an empty vector (undefined for std::vector): nothing *)
   | OCmp o v w => match vvar a w with Some l2 => vmember a v (fun l => (l, RBool (vec_cmp o l l2))) | None => (a, RPre) end
+  (* element references stay valid while the vector is neither reallocated nor shrunk below them;
+     a write through a pointer into one vector changes that vector and no other *)
+  | OSet2 v i x j y => vmember a v (fun l => (upd (upd l i x) j y, RUnit))
+  | OSwap v i j => vmember a v (fun l => (upd (upd l i (nth j l UNINIT)) j (nth i l UNINIT), RUnit))
+  | OGetHeld v i j | OGetHeldC v i j => vmember a v (fun l => (l, RByte (nth i l UNINIT)))
+  | OHeldPop v i => vmember a v (fun l => (removelast l, RByte (nth i l UNINIT)))
+  | OCDataHeld v i j value => vmember a v (fun l => (upd l j value, RByte (nth i (upd l j value) UNINIT)))
+  | ODataHeldCopy v w pos value =>
+    match vvar a v, vvar a w with
+    | Some l, None => (upd (upd a w (Some l)) v (Some (upd l pos value)), RUnit)
+    | _, _ => (a, RPre)
+    end
+  | ODataHeldAssign v w pos value =>
+    match vvar a v, vvar a w with
+    | Some l, Some _ => (upd (upd a w (Some l)) v (Some (upd l pos value)), RUnit)
+    | _, _ => (a, RPre)
+    end
   end.
 
 (* the operations std::vector defines: object lifetimes respected, indices inside the vector *)
@@ -443,6 +599,11 @@ Definition op_pre (a : vstate) (o : op) : bool :=
   | OGet v pos | OGetC v pos => idx v pos
   | OPush v _ | OPop v => live v
   | OSize v | OCapacity v | OEmpty v | OData v | ODataC v | OReserve v _ | OResize v _ | OClear v => live v
+  | OSet2 v i _ j _ | OSwap v i j | OGetHeld v i j | OGetHeldC v i j => idx v i && idx v j
+  | OHeldPop v i => idx v (i + 1)
+  | OCDataHeld v i j _ => idx v i && idx v j
+  | ODataHeldCopy v w pos _ => idx v pos && dead w
+  | ODataHeldAssign v w pos _ => idx v pos && live w
   end.
 
 Fixpoint vec_run (a : vstate) (ops : list op) : vstate * list result :=
@@ -494,7 +655,17 @@ Definition op_safe (c : cfg) (o : op) : bool :=
   | OCmp CEq _ _ | OCmp CNe _ _ => true
   | OCmp _ _ _ => c_fix_cmp c
   | OFromHex _ _ => c_fix_hex c
+  | OSet2 _ _ _ _ _ | OSwap _ _ _ | OGetHeld _ _ _ | OGetHeldC _ _ _ | OHeldPop _ _ => c_fix_index c
+  | ODataHeldCopy _ _ _ _ | ODataHeldAssign _ _ _ _ => c_fix_leak c
+  | OCDataHeld _ _ _ _ => c_fix_index c && c_fix_leak c
   | _ => true
+  end.
+(* the operations in which a reference or pointer is held across another operation *)
+Definition op_held (o : op) : bool :=
+  match o with
+  | OSet2 _ _ _ _ _ | OSwap _ _ _ | OGetHeld _ _ _ | OGetHeldC _ _ _ | OHeldPop _ _
+  | ODataHeldCopy _ _ _ _ | ODataHeldAssign _ _ _ _ | OCDataHeld _ _ _ _ => true
+  | _ => false
   end.
 
 (* the selected instances (what /repo has now, per Model/C20Config.v) *)
